@@ -205,43 +205,52 @@ theorem subset_eq_full (m : List Bool) (T σ : List α) (hT : m.length = T.lengt
 
 end rows
 
-/-- **meaningless requests are rejected at construction** — partial: the requests
-below are rejected with the stated class.  Missing for full strength: a request that
-is not a sequence, a string or `None` is rejected only because no branch assigns the
-mask (`UnboundLocalError`, not a deliberate `ValueError`), and `uniform` with count 0
-or with an empty group is rejected by a `ZeroDivisionError` from the stride. -/
-theorem reject_meaningless_partial (arr : Arr) (nx ny nz : Nat) (choices : List (List Nat)) :
-    storageMask arr nx ny nz .mixed choices = .error "ValueError"
-    ∧ storageMask arr nx ny nz .other choices = .error "UnboundLocalError"
-    ∧ (∀ s choice exts, firstGroup (lower s) = none → hasSub "random".toList (lower s) = false →
-        hasSub "uniform".toList (lower s) = false →
-        interpretString arr nz exts s choice = .error "ValueError")
-    ∧ (∀ s choice exts a b rest, (hasSub "random".toList (lower s) || hasSub "uniform".toList (lower s)) = true →
-        digitRuns (lower s) none = a :: b :: rest →
-        ∃ e, interpretString arr nz exts s choice = .error e) := by
-  refine ⟨rfl, rfl, ?_, ?_⟩
-  · intro s choice exts h1 h2 h3
-    unfold interpretString
-    simp only [h1, h2, h3]
-    rfl
-  · intro s choice exts a b rest h1 h2
-    unfold interpretString
-    simp only [h2]
-    cases hfg : firstGroup (lower s) with
-    | none =>
-      refine ⟨"ValueError", ?_⟩
-      cases hr : hasSub "random".toList (lower s) <;> cases hu : hasSub "uniform".toList (lower s) <;>
-        simp_all [bind, Except.bind, throw, throwThe, MonadExceptOf.throw, pure, Except.pure]
-    | some g =>
-      cases hmk : maskOf arr nz exts [g] with
-      | error e =>
-        refine ⟨e, ?_⟩
-        cases hr : hasSub "random".toList (lower s) <;> cases hu : hasSub "uniform".toList (lower s) <;>
-          simp_all [bind, Except.bind]
-      | ok m =>
-        refine ⟨"ValueError", ?_⟩
-        cases hr : hasSub "random".toList (lower s) <;> cases hu : hasSub "uniform".toList (lower s) <;>
-          simp_all [bind, Except.bind, throw, throwThe, MonadExceptOf.throw, pure, Except.pure]
+/-- a request is malformed on a given batch iff the category table `specOutcome`
+(`Lemmas/Store.lean`) names an exception class for it — an explicit decidable predicate
+on the `Spec` type, written as a flat table and not through the interpreter:
+
+* not a list/tuple, string or `None`                         → `UnboundLocalError` (accidental: no `else` branch)
+* list/tuple neither all `int` nor all `str` (numpy scalars, floats, mixtures) → `ValueError` (intended)
+* index `< 0` or `> N − 1`                                   → `ValueError` (intended)
+* list of `bool` only: a `True` when `N = 1` (range check with `True` = 1) → `ValueError`;
+  otherwise length `≠ N` (numpy boolean-mask indexing)       → `IndexError` (accidental)
+* string without group word / `random` / `uniform`           → `ValueError` (intended)
+* `random`/`uniform` with more than one number               → `ValueError` (intended)
+* `random n` with `n` larger than the group                  → `ValueError` (raised by `Generator.choice`)
+* `uniform 0`, or `uniform` over an empty group              → `ZeroDivisionError` (accidental: stride)
+* list of strings: the class of its first malformed entry. -/
+def malformed (arr : Arr) (nx ny nz : Nat) (spec : Spec) : Bool :=
+  (specOutcome arr nz (extVec arr nx ny nz) spec).isSome
+
+/-- the exception class expected for a malformed request -/
+def expected (arr : Arr) (nx ny nz : Nat) (spec : Spec) : List String :=
+  (specOutcome arr nz (extVec arr nx ny nz) spec).toList
+
+/-- **meaningless requests are rejected at construction**, with exactly the class of
+their category; the property itself only needs "raises at construction". -/
+theorem reject_meaningless (arr : Arr) (nx ny nz : Nat) (spec : Spec) (choices : List (List Nat))
+    (h : malformed arr nx ny nz spec = true) :
+    ∃ cls, storageMask arr nx ny nz spec choices = .error cls ∧ cls ∈ expected arr nx ny nz spec
+      ∧ cls ∈ ["ValueError", "UnboundLocalError", "ZeroDivisionError", "IndexError"] := by
+  have hd := storageMask_decision arr nx ny nz spec choices
+  unfold malformed at h
+  unfold expected
+  cases ho : specOutcome arr nz (extVec arr nx ny nz) spec with
+  | none => rw [ho] at h; simp at h
+  | some c =>
+    rw [ho] at hd
+    exact ⟨c, hd, by simp, specOutcome_classes arr nz _ spec c ho⟩
+
+/-- **every other request is accepted**: acceptance / rejection is a total decision,
+whatever the generator returns for a `random` request. -/
+theorem accept_well_formed (arr : Arr) (nx ny nz : Nat) (spec : Spec) (choices : List (List Nat))
+    (h : malformed arr nx ny nz spec = false) :
+    ∃ p, storageMask arr nx ny nz spec choices = .ok p := by
+  have hd := storageMask_decision arr nx ny nz spec choices
+  unfold malformed at h
+  cases ho : specOutcome arr nz (extVec arr nx ny nz) spec with
+  | none => rw [ho] at hd; exact hd
+  | some c => rw [ho] at h; simp at h
 
 /-- the hypotheses are satisfiable: concrete requests on a 3×3 shelf (those of the
 package's own tests), including a two-number request and a too large random count. -/
@@ -254,6 +263,13 @@ theorem nonvacuous :
     ∧ (storageMask .hexagonal 3 3 1 (.str "corner_random_3") [[0, 6, 1]]).toOption = none
     ∧ (storageMask .square 3 3 1 (.seq [.int 0, .npInt 8]) []).toOption = none
     ∧ ((storageMask .square 3 3 1 (.seq [.bool true, .int 2]) []).toOption.map (fun p => whereTrue p.1) = some [1, 2])
+    ∧ expected .square 3 3 1 (.str "uniform_0") = ["ZeroDivisionError"]
+    ∧ expected .square 2 2 1 (.str "core_uniform_2") = ["ZeroDivisionError"]
+    ∧ expected .square 3 3 1 (.str "corner_random_5") = ["ValueError"]
+    ∧ expected .square 3 3 1 .other = ["UnboundLocalError"]
+    ∧ expected .square 3 3 1 (.seq [.bool true, .bool false]) = ["IndexError"]
+    ∧ expected .square 1 1 1 (.seq [.bool true]) = ["ValueError"]
+    ∧ malformed .square 3 3 1 (.strs ["core", "corner_random_2"]) = false
     ∧ firstGroup (lower "cornerEDGE") = some "corner"
     ∧ digitRuns (lower "2random3") none = [2, 3] := by decide
 
